@@ -63,6 +63,7 @@ fn execute_world(plan: &Plan, ctx: &mut Ctx) {
         "datum" => crate::datumop::execute(plan, ctx),
         "settable" => crate::settable::execute(plan, ctx),
         "refs" => crate::refs::execute(plan, ctx),
+        "api" => crate::api::execute(plan, ctx),
         other => ctx.violate("HARNESS", "unknown_world", other, format!("unknown world {:?}", other)),
     }
 }
@@ -98,7 +99,8 @@ fn gen_c16(prop: &str, tier: crate::core::Tier, rng: &mut crate::rng::Rng, seed:
 /// "C19ill" plans deliver quantities in wrong / changing units (run only where checking is off).
 fn gen_c19(prop: &str, tier: crate::core::Tier, rng: &mut crate::rng::Rng, seed: u64, run: u64) -> Plan {
     if prop == "C19ill" {
-        return match run % 3 {
+        return match run % 4 {
+            3 => crate::api::generate(prop, tier, rng, seed, run),
             0 => {
                 let kinds = ["a2s", "v2s", "p2s"];
                 crate::node_gen::gen_node(prop, kinds[(run / 3 % 3) as usize], 1, tier, rng, seed, run)
@@ -109,6 +111,9 @@ fn gen_c19(prop: &str, tier: crate::core::Tier, rng: &mut crate::rng::Rng, seed:
             }
             _ => crate::comb::generate(prop, tier, rng, seed, run),
         };
+    }
+    if run % 5 == 4 {
+        return crate::api::generate(prop, tier, rng, seed, run);
     }
     match run % 8 {
         0 => crate::node_gen::gen_node(prop, crate::node_gen::C05_KINDS[(run / 8 % 14) as usize], 1, tier, rng, seed, run),
